@@ -762,6 +762,8 @@ impl<'a> Repr<'a> {
             } => {
                 packet.set_msg_type(Message::DstUnreachable);
                 packet.set_msg_code(reason.into());
+                // The second header word is unused in this message and must be zero.
+                NetworkEndian::write_u32(&mut packet.buffer.as_mut()[field::UNUSED], 0);
 
                 emit_contained_packet(packet, header, data);
             }
@@ -781,6 +783,8 @@ impl<'a> Repr<'a> {
             } => {
                 packet.set_msg_type(Message::TimeExceeded);
                 packet.set_msg_code(reason.into());
+                // The second header word is unused in this message and must be zero.
+                NetworkEndian::write_u32(&mut packet.buffer.as_mut()[field::UNUSED], 0);
 
                 emit_contained_packet(packet, header, data);
             }
